@@ -56,13 +56,13 @@ class EFLRItem:
 
         """
 
-        self.name = validate_string(name)    #: name of the item
-
         self._check_parent(parent)
         self._parent = parent  #: EFLRSet instance this item belongs to
-        self._parent.register_item(self)
 
         try:
+            self.name = validate_string(name)    #: name of the item
+            self._parent.register_item(self)
+
             #: origin reference value, common for records sharing origin
             self._origin_reference: Union[int, None] = self._validate_origin_reference(origin_reference,
                                                                                        allow_none=True)
@@ -77,8 +77,9 @@ class EFLRItem:
 
         except Exception:
             # the item could not be set up (e.g. invalid attribute values), so it will never be used:
-            # it must not remain registered with the parent EFLRSet
+            # it must not remain registered with the parent EFLRSet (and the set must not remain if made just for it)
             self._parent.unregister_item(self)
+            self._parent.discard_if_empty()
             raise
 
     @property
